@@ -12,6 +12,8 @@ VERIF = os.path.dirname(HERE)
 BUILD = os.path.join(VERIF, "build")
 REPO = os.environ.get("MEMC_REPO", "/repo")
 
+SLOTS = 6  # cargo target directories used side by side for scratch trees (~150 MB each, built on first use)
+
 CONFIGS = {
     # name -> extra RUSTFLAGS
     "dev": "",
@@ -46,8 +48,30 @@ def extract(repo=None, config="dev", quiet=True):
     out = os.path.join(BUILD, "facts", "%s.%s" % (th, config))
     os.makedirs(os.path.join(BUILD, "facts"), exist_ok=True)
     lockp = os.path.join(BUILD, "extract.%s.lock" % config)
-    with open(lockp, "w") as lf:
+    if os.path.exists(os.path.join(out, "OK")):
+        return out  # complete fact dirs are only ever renamed into place: no need to queue behind a running extraction
+    # one extraction per tree at a time (hlock); extractions of different trees run side by side, each in one of a few
+    # cargo target directories (a target directory serves one cargo at a time)
+    os.makedirs(os.path.join(BUILD, "locks"), exist_ok=True)
+    hlock = open(os.path.join(BUILD, "locks", "%s.%s.lock" % (th, config)), "w")
+    fcntl.flock(hlock, fcntl.LOCK_EX)
+    if os.path.exists(os.path.join(out, "OK")):
+        hlock.close()
+        return out
+    slot, lf = None, None
+    for i in range(SLOTS):
+        cand = open(lockp if i == 0 else "%s.%d" % (lockp, i), "w")
+        try:
+            fcntl.flock(cand, fcntl.LOCK_EX | fcntl.LOCK_NB)
+            slot, lf = i, cand
+            break
+        except OSError:
+            cand.close()
+    if lf is None:
+        slot = os.getpid() % SLOTS
+        lf = open(lockp if slot == 0 else "%s.%d" % (lockp, slot), "w")
         fcntl.flock(lf, fcntl.LOCK_EX)
+    with lf, hlock:
         ok = os.path.join(out, "OK")
         if os.path.exists(ok):
             return out
@@ -56,7 +80,7 @@ def extract(repo=None, config="dev", quiet=True):
         tmp = out + ".tmp"
         if os.path.exists(tmp):
             shutil.rmtree(tmp)
-        tgt = os.path.join(BUILD, "target-%s" % config)
+        tgt = os.path.join(BUILD, "target-%s" % config if slot == 0 else "target-%s.%d" % (config, slot))
         t0 = time.time()
         r = subprocess.run(
             [os.path.join(VERIF, "extract.sh"), repo, tmp, tgt, CONFIGS[config]],
@@ -82,11 +106,20 @@ def extract(repo=None, config="dev", quiet=True):
         with open(os.path.join(tmp, "OK"), "w") as fh:
             fh.write("%s %.1fs\n" % (th, time.time() - t0))
         os.rename(tmp, out)
-        # keep the cache small: drop all but the 6 most recent fact dirs
+        # keep the cache small: drop fact dirs beyond the 48 most recent once they are half an hour old (parallel runs over scratch copies each need theirs to stay)
         fd = os.path.join(BUILD, "facts")
-        ds = sorted((os.path.getmtime(os.path.join(fd, d)), d) for d in os.listdir(fd) if not d.endswith(".tmp"))
-        for _, d in ds[:-6]:
-            shutil.rmtree(os.path.join(fd, d), ignore_errors=True)
+        try:
+            ds = sorted((os.path.getmtime(os.path.join(fd, d)), d) for d in os.listdir(fd) if not d.endswith(".tmp"))
+            for mt, d in ds[:-48]:
+                if time.time() - mt > 1800:  # never one that a check running side by side may be about to read
+                    shutil.rmtree(os.path.join(fd, d), ignore_errors=True)
+            ld = os.path.join(BUILD, "locks")
+            for l in os.listdir(ld):
+                lp = os.path.join(ld, l)
+                if time.time() - os.path.getmtime(lp) > 7200:
+                    os.unlink(lp)
+        except OSError:
+            pass  # another extraction is tidying up at the same moment
         return out
 
 
